@@ -89,8 +89,38 @@ def _ops():
         "roundtrip-alive": lambda r, n: type(n).as_obj(n.as_dict()), "roundtrip-after-detach": lambda r, n: (n.detach(), type(n).from_json(n.to_json()))[1],
         "eq": lambda r, n: (r == n, n == n, n != r, n.is_equal(r)), "hash": lambda r, n: (hash(n), {n: 1}[n]), "rich": lambda r, n: (n.__rich__(), repr(n), str(n)),
         "to_tree": lambda r, n: r.to_tree(),
+        "as_obj-payload-carrying-the-id-of-a-live-node": safe(_payload_with_foreign_id),
+        "from_json-of-detached-twin-under-digest-size-1": safe(_collision_roundtrip),
     }
     return ops
+
+
+_CTX: dict[str, Any] = {}
+
+
+def _payload_with_foreign_id(r, n):
+    """Deserialize a payload whose id is currently held by a live node of different content
+    (a hand-edited id, or a digest collision)."""
+    d = n.as_dict()
+    n.detach()
+    d["id"] = _CTX["bystander"].id
+    return type(n).as_obj(d)
+
+
+def _collision_roundtrip(r, n):
+    from pyoak import config
+
+    old = config.ID_DIGEST_SIZE
+    config.ID_DIGEST_SIZE = 1
+    try:
+        a = VLeaf(v=1, origin=n.origin)
+        data = a.to_json()
+        a.detach()
+        keep = [VLeaf(v=k) for k in range(2, 40)]  # some of these take over a's one-byte id
+        back = VLeaf.from_json(data)
+        return [back, keep]
+    finally:
+        config.ID_DIGEST_SIZE = old
 
 
 def _collect(obj: Any, into: dict[int, Any]) -> None:
@@ -133,6 +163,8 @@ def make_harness(K: int, first_op: str | None):
         paths = positions_of(TREES[tno])
         existing: dict[int, Any] = {}
         _collect(root, existing)
+        _CTX["bystander"] = VLeaf(v=424242)
+        _collect(_CTX["bystander"], existing)
         history: list[str] = []
         scenario: dict[str, Any] = {"tree": describe(TREES[tno]), "history": history}
         for step in range(K):
